@@ -9,10 +9,14 @@ Import ListNotations.
 
 (* acceptance, for EVERY arithmetic instance (so also for the float result): the
    coefficient vector is the dense vector of the source terms, the variable is the
-   rendered letter (None for a constant text) *)
+   rendered letter (None for a constant text).  Since 59b028d two VALUE-side premises:
+   every written numeral denotes a finite number of the instance ([src_finite]) and every
+   partial sum of like powers stays finite ([sums_finite]); both always hold in R and Z
+   (c01_finite_exact), so c01_meaning keeps its statement. *)
 Theorem c01_accept : forall (T : Type) (NT : Num T) (U : UClass), USane U ->
   forall (src : usrc) (v : N) (lead : bool) (s : str),
   wf_src src = true -> (uses_var src = true -> u_alphabetic U v = true) ->
+  @src_finite T NT src = true -> sums_finite (@terms_of T NT src) = true ->
   strip_ws s = render lead v src ->
   parse_simple U s = Ok {| s_coefs := dense_coeffs (@terms_of T NT src);
                            s_var := if uses_var src then Some v else None |}.
@@ -20,10 +24,23 @@ Proof. exact @Proofs.SimpleParse.simple_accept. Qed.
 Check c01_accept : forall (T : Type) (NT : Num T) (U : UClass), USane U ->
   forall (src : usrc) (v : N) (lead : bool) (s : str),
   wf_src src = true -> (uses_var src = true -> u_alphabetic U v = true) ->
+  @src_finite T NT src = true -> sums_finite (@terms_of T NT src) = true ->
   strip_ws s = render lead v src ->
   parse_simple U s = Ok {| s_coefs := dense_coeffs (@terms_of T NT src);
                            s_var := if uses_var src then Some v else None |}.
 Print Assumptions c01_accept.
+
+(* in exact arithmetic the two finiteness premises are vacuous *)
+Theorem c01_finite_exact :
+  (forall src : usrc, @src_finite R RNum src = true) /\ (forall ts : list (R * nat), sums_finite ts = true) /\
+  (forall src : usrc, @src_finite Z ZNum src = true) /\ (forall ts : list (Z * nat), sums_finite ts = true) /\
+  (forall s, @parse_dec_finite R RNum s = parse_dec s) /\ (forall s, @parse_dec_finite Z ZNum s = parse_dec s).
+Proof. exact Proofs.SimpleParse.finite_exact. Qed.
+Check c01_finite_exact :
+  (forall src : usrc, @src_finite R RNum src = true) /\ (forall ts : list (R * nat), sums_finite ts = true) /\
+  (forall src : usrc, @src_finite Z ZNum src = true) /\ (forall ts : list (Z * nat), sums_finite ts = true) /\
+  (forall s, @parse_dec_finite R RNum s = parse_dec s) /\ (forall s, @parse_dec_finite Z ZNum s = parse_dec s).
+Print Assumptions c01_finite_exact.
 
 (* the dense vector: position k holds the sum, in source order, of the coefficients of
    the terms of power k — for every k; missing powers are n0 (empty sum) *)
@@ -96,6 +113,7 @@ Example c01_ex_test_suite :
   let src := [(false, UVar (Some (dI "3")) (Some (str_of "2"))); (false, UVar (Some (dI "2")) None);
               (true, UConst (dI "5"))] in
   wf_src src = true /\ uses_var src = true /\ u_alphabetic uclass_tab 120 = true /\
+  @src_finite float FNum src = true /\ sums_finite (@terms_of float FNum src) = true /\
   strip_ws (str_of "3x^2+2x-5") = render false 120 src /\
   @parse_simple float FNum uclass_tab (str_of "3x^2+2x-5") = Ok {| s_coefs := [-5; 2; 3]%float; s_var := Some 120%N |}.
 Proof. vm_compute. repeat split. Qed.
@@ -119,4 +137,15 @@ Example c01_ex_unicode :
   let src := [(false, UVar None (Some (str_of "2"))); (true, UVar None None)] in
   wf_src src = true /\ u_alphabetic uclass_tab 960 = true /\ strip_ws s = render true 960 src /\
   @parse_simple float FNum uclass_tab s = Ok {| s_coefs := [0; -1; 1]%float; s_var := Some 960%N |}.
+Proof. vm_compute. repeat split. Qed.
+
+(* 59b028d: numerals beyond the range of f64 are errors, not infinite coefficients:
+   a 400-digit coefficient / constant, and two 308-digit coefficients (each finite) whose sum overflows *)
+Example c01_ex_overflow :
+  @parse_simple float FNum uclass_tab (repeat 57%N 400 ++ [120%N])%list = Err EInvalidCoefficient /\
+  @parse_simple float FNum uclass_tab (repeat 57%N 400) = Err EInvalidConstant /\
+  @parse_simple float FNum uclass_tab (repeat 57%N 308 ++ [120; 43]%N ++ repeat 57%N 308 ++ [120%N])%list = Err EInvalidCoefficient /\
+  (let src := [(false, UVar (Some {| d_int := repeat 57%N 308; d_frac := None |}) None);
+               (false, UVar (Some {| d_int := repeat 57%N 308; d_frac := None |}) None)] in
+   wf_src src = true /\ @src_finite float FNum src = true /\ sums_finite (@terms_of float FNum src) = false).
 Proof. vm_compute. repeat split. Qed.
